@@ -403,8 +403,8 @@ def judge_ns(rn: Runner, f: Facts, L: int, mode: str) -> list[tuple[str, str, di
                         f"(engine counts {o['engine_size']}, context depth {o['depth']}) under limit {L}", ex))
         if m.ns_early is not None:
             o = m.ns_early
-            out.append(("namespace-limit:error-though-within",
-                        f"LocalNamespaceLimitError with {o['size']} bytes of local values under limit {L}", ex))
+            out.append(("namespace-limit:error-though-within" + (":" + o["why"] if o["why"] else ""),
+                        f"LocalNamespaceLimitError with {o['size']} bytes of local values on the live context chain under limit {L}", ex))
     if r.status == "ok":
         if L < f.N and not (m is not None and m.ns_over is not None):
             out.append(("namespace-limit:exceeded-without-error:peak",
